@@ -9,7 +9,17 @@
 
     [agree]: the model reproduces every observed stage.
     [holds]: the property, judged on what the implementation did, against MvSpec
-             (documented sub-field names, documented alignment). *)
+             (documented sub-field names, documented alignment):
+             - every dump taken in a state of the domain ([in_domain]) is the documented
+               text [spec_dump] (C12_dump_is_documented_text), so it exists and is aligned;
+             - from a dumpable object under well-formed edits no dump raises
+               (C12_always_dumpable);
+             - the re-parsed object is the paragraph the spec expects and dumps to the
+               same text (C12_paragraph_reparse, C12_domain_paragraph_is_spec);
+             - each raw value that reads as rows / as the single-line form was parsed into
+               exactly those records (C12_parse_exposes_records, C12_parse_single_line);
+             - a parsed text whose present structured fields are complete dumps without
+               error whichever fields are absent (C12_parsed_dump_total). *)
 From Coq Require Import Uint63.
 From Verif Require Import Lib.Base Lib.PyStr Lib.Dec Gen.PyChars Gen.MvTables
   Deb822.Multivalued Deb822.MvSpec Deb822.Packed.
@@ -96,11 +106,92 @@ Definition t_case (t : tree) : option kase :=
   | _ => None
   end.
 
+(** ** A faster decoder for the packed literal (same result as [Packed.parse_tree]:
+    the symbols stay primitive integers until an atom's text is stored; [n_of_sym] is a
+    binary decision tree over the 128 symbol values).  Private to this check. *)
+Definition n_of_sym (c : int) : N :=
+    (if (c <? 64)%uint63 then (if (c <? 32)%uint63 then (if (c <? 16)%uint63 then (if (c <? 8)%uint63
+    then (if (c <? 4)%uint63 then (if (c <? 2)%uint63 then (if (c <? 1)%uint63 then 0%N else 1%N) else
+    (if (c <? 3)%uint63 then 2%N else 3%N)) else (if (c <? 6)%uint63 then (if (c <? 5)%uint63 then 4%N
+    else 5%N) else (if (c <? 7)%uint63 then 6%N else 7%N))) else (if (c <? 12)%uint63 then (if (c <?
+    10)%uint63 then (if (c <? 9)%uint63 then 8%N else 9%N) else (if (c <? 11)%uint63 then 10%N else
+    11%N)) else (if (c <? 14)%uint63 then (if (c <? 13)%uint63 then 12%N else 13%N) else (if (c <?
+    15)%uint63 then 14%N else 15%N)))) else (if (c <? 24)%uint63 then (if (c <? 20)%uint63 then (if (c
+    <? 18)%uint63 then (if (c <? 17)%uint63 then 16%N else 17%N) else (if (c <? 19)%uint63 then 18%N
+    else 19%N)) else (if (c <? 22)%uint63 then (if (c <? 21)%uint63 then 20%N else 21%N) else (if (c <?
+    23)%uint63 then 22%N else 23%N))) else (if (c <? 28)%uint63 then (if (c <? 26)%uint63 then (if (c <?
+    25)%uint63 then 24%N else 25%N) else (if (c <? 27)%uint63 then 26%N else 27%N)) else (if (c <?
+    30)%uint63 then (if (c <? 29)%uint63 then 28%N else 29%N) else (if (c <? 31)%uint63 then 30%N else
+    31%N))))) else (if (c <? 48)%uint63 then (if (c <? 40)%uint63 then (if (c <? 36)%uint63 then (if (c
+    <? 34)%uint63 then (if (c <? 33)%uint63 then 32%N else 33%N) else (if (c <? 35)%uint63 then 34%N
+    else 35%N)) else (if (c <? 38)%uint63 then (if (c <? 37)%uint63 then 36%N else 37%N) else (if (c <?
+    39)%uint63 then 38%N else 39%N))) else (if (c <? 44)%uint63 then (if (c <? 42)%uint63 then (if (c <?
+    41)%uint63 then 40%N else 41%N) else (if (c <? 43)%uint63 then 42%N else 43%N)) else (if (c <?
+    46)%uint63 then (if (c <? 45)%uint63 then 44%N else 45%N) else (if (c <? 47)%uint63 then 46%N else
+    47%N)))) else (if (c <? 56)%uint63 then (if (c <? 52)%uint63 then (if (c <? 50)%uint63 then (if (c
+    <? 49)%uint63 then 48%N else 49%N) else (if (c <? 51)%uint63 then 50%N else 51%N)) else (if (c <?
+    54)%uint63 then (if (c <? 53)%uint63 then 52%N else 53%N) else (if (c <? 55)%uint63 then 54%N else
+    55%N))) else (if (c <? 60)%uint63 then (if (c <? 58)%uint63 then (if (c <? 57)%uint63 then 56%N else
+    57%N) else (if (c <? 59)%uint63 then 58%N else 59%N)) else (if (c <? 62)%uint63 then (if (c <?
+    61)%uint63 then 60%N else 61%N) else (if (c <? 63)%uint63 then 62%N else 63%N)))))) else (if (c <?
+    96)%uint63 then (if (c <? 80)%uint63 then (if (c <? 72)%uint63 then (if (c <? 68)%uint63 then (if (c
+    <? 66)%uint63 then (if (c <? 65)%uint63 then 64%N else 65%N) else (if (c <? 67)%uint63 then 66%N
+    else 67%N)) else (if (c <? 70)%uint63 then (if (c <? 69)%uint63 then 68%N else 69%N) else (if (c <?
+    71)%uint63 then 70%N else 71%N))) else (if (c <? 76)%uint63 then (if (c <? 74)%uint63 then (if (c <?
+    73)%uint63 then 72%N else 73%N) else (if (c <? 75)%uint63 then 74%N else 75%N)) else (if (c <?
+    78)%uint63 then (if (c <? 77)%uint63 then 76%N else 77%N) else (if (c <? 79)%uint63 then 78%N else
+    79%N)))) else (if (c <? 88)%uint63 then (if (c <? 84)%uint63 then (if (c <? 82)%uint63 then (if (c
+    <? 81)%uint63 then 80%N else 81%N) else (if (c <? 83)%uint63 then 82%N else 83%N)) else (if (c <?
+    86)%uint63 then (if (c <? 85)%uint63 then 84%N else 85%N) else (if (c <? 87)%uint63 then 86%N else
+    87%N))) else (if (c <? 92)%uint63 then (if (c <? 90)%uint63 then (if (c <? 89)%uint63 then 88%N else
+    89%N) else (if (c <? 91)%uint63 then 90%N else 91%N)) else (if (c <? 94)%uint63 then (if (c <?
+    93)%uint63 then 92%N else 93%N) else (if (c <? 95)%uint63 then 94%N else 95%N))))) else (if (c <?
+    112)%uint63 then (if (c <? 104)%uint63 then (if (c <? 100)%uint63 then (if (c <? 98)%uint63 then (if
+    (c <? 97)%uint63 then 96%N else 97%N) else (if (c <? 99)%uint63 then 98%N else 99%N)) else (if (c <?
+    102)%uint63 then (if (c <? 101)%uint63 then 100%N else 101%N) else (if (c <? 103)%uint63 then 102%N
+    else 103%N))) else (if (c <? 108)%uint63 then (if (c <? 106)%uint63 then (if (c <? 105)%uint63 then
+    104%N else 105%N) else (if (c <? 107)%uint63 then 106%N else 107%N)) else (if (c <? 110)%uint63 then
+    (if (c <? 109)%uint63 then 108%N else 109%N) else (if (c <? 111)%uint63 then 110%N else 111%N))))
+    else (if (c <? 120)%uint63 then (if (c <? 116)%uint63 then (if (c <? 114)%uint63 then (if (c <?
+    113)%uint63 then 112%N else 113%N) else (if (c <? 115)%uint63 then 114%N else 115%N)) else (if (c <?
+    118)%uint63 then (if (c <? 117)%uint63 then 116%N else 117%N) else (if (c <? 119)%uint63 then 118%N
+    else 119%N))) else (if (c <? 124)%uint63 then (if (c <? 122)%uint63 then (if (c <? 121)%uint63 then
+    120%N else 121%N) else (if (c <? 123)%uint63 then 122%N else 123%N)) else (if (c <? 126)%uint63 then
+    (if (c <? 125)%uint63 then 124%N else 125%N) else (if (c <? 127)%uint63 then 126%N else 127%N))))))).
+Definition pstate := (list N * list (list tree))%type.
+Definition psym (c : int) (st : option pstate) : option pstate :=
+  match st with
+  | None => None
+  | Some (cur, stack) =>
+      if (c =? 0)%uint63 then st
+      else if (c =? 1)%uint63 then Some ([], [] :: stack)
+      else if (c =? 2)%uint63 then
+        match stack with
+        | top :: next :: rest => Some ([], (Node (rev top) :: next) :: rest)
+        | _ => None
+        end
+      else if (c =? 3)%uint63 then
+        match stack with
+        | top :: rest => Some ([], (Atom (unesc (rev cur)) :: top) :: rest)
+        | [] => None
+        end
+      else Some (n_of_sym c :: cur, stack)
+  end.
+Definition pint (st : option pstate) (x : int) : option pstate :=
+  psym ((x >> 56) land 127) (psym ((x >> 49) land 127) (psym ((x >> 42) land 127)
+  (psym ((x >> 35) land 127) (psym ((x >> 28) land 127) (psym ((x >> 21) land 127)
+  (psym ((x >> 14) land 127) (psym ((x >> 7) land 127) (psym (x land 127) st)))))))).
+Definition parse_tree_fast (xs : list int) : option tree :=
+  match fold_left pint xs (Some ([], [[]])) with
+  | Some ([], [[t]]) => Some t
+  | _ => None
+  end.
+
 (** [pc ints] : the case; [None] when the literal is malformed (fails [agree]). *)
 (** The type of the elements of a shard's case list. *)
 Definition case := option kase.
 Definition pc (xs : list int) : case :=
-  match parse_tree xs with Some t => t_case t | None => None end.
+  match parse_tree_fast xs with Some t => t_case t | None => None end.
 
 (** ** Equalities *)
 Definition rec_eqb (a b : record) : bool := list_eqb (pair_eqb str_eqb str_eqb) a b.
@@ -263,15 +354,22 @@ Definition holds_build (c : kase) : bool :=
           | ObsEditErr ds _ => holds_hist k b ci p (c_edits c) ds false
           | _ => true
           end
+          (* "can always be dumped": from a dumpable object, under well-formed edits,
+             no dump may raise (the statement of C12_always_dumpable, on the code) *)
+          && (if para_dumpable k b ci p && forallb (edit_ok k b ci) (c_edits c)
+              then match c_obs c with ObsDumpErr _ _ => false | _ => true end
+              else true)
       | Err _ => true
       end
   | _, _ => true
   end.
 
-(** (1) parsing exposes each line as a record with the documented sub-field names;
+(** (1) parsing exposes each line as a record with the documented sub-field names
+        (one mapping for the single-line form);
     (2)+(3) a parsed paragraph all of whose PRESENT structured fields are lists of
     complete records dumps without error — whichever of the class's other
-    structured fields are absent — and with the documented alignment. *)
+    structured fields are absent — and with the documented alignment; with
+    single-line fields among them ([raw_ok]) it still dumps without error. *)
 Definition holds_parsed (c : kase) : bool :=
   match c_obs c, behav_of (c_behav c) with
   | ObsFull _ raw parsed dump2, Ok b =>
@@ -284,7 +382,11 @@ Definition holds_parsed (c : kase) : bool :=
               | Some order =>
                   match spec_rows order (snd (fst rq)) with
                   | Some rows => fvalue_eqb (snd (snd rq)) (Multi (spec_records order rows))
-                  | None => true
+                  | None =>
+                      match spec_single order (snd (fst rq)) with
+                      | Some toks => fvalue_eqb (snd (snd rq)) (Single (combine order toks))
+                      | None => true
+                      end
                   end
               | None => fvalue_eqb (snd (snd rq)) (Plain (snd (fst rq)))
               end) (combine raw parsed)
@@ -292,6 +394,9 @@ Definition holds_parsed (c : kase) : bool :=
          | Some sp => result_eqb str_eqb dump2 (Ok (spec_dump k b sp))
          | None => true
          end
+      (* whichever structured fields are present: complete lines (or the single-line
+         form where the class supports it) => the dump of the parsed object succeeds *)
+      && (if raw_ok k b raw then is_ok dump2 else true)
   | _, _ => true
   end.
 
